@@ -952,7 +952,15 @@ func discoveryCacheKeyRule(c *Check, rule string) {
 						continue
 					}
 					if cl, _ := classOfMap(mp); !strings.HasPrefix(cl, "global:") {
-						continue
+						// the cache kept in a small struct (map + mutex) held by a package-level variable: a map field of an own
+						// type of this package whose values are discovery documents
+						mt, isM := mp.Type().Underlying().(*types.Map)
+						if !isM || !strings.HasSuffix(typeID(derefType(mt.Elem())), ".WellKnownConfig") {
+							continue
+						}
+						if _, f, isL := fieldLoad(resolveCell(stripConv(mp))); !isL || f == nil {
+							continue
+						}
 					}
 					nAcc++
 					if !originsAre(P, idx, urlParam, 2) {
